@@ -2,6 +2,8 @@ import TrackVerif.LT.FmtLemmas
 import TrackVerif.LT.XmlLemmas
 import TrackVerif.LT.TimeLemmas
 import TrackVerif.LT.CodecLemmas
+import TrackVerif.LT.TreeLemmas
+import TrackVerif.LT.DecodeLemmas
 import TrackVerif.LT.Spec
 import TrackVerif.Generated.LT
 /-
@@ -49,6 +51,49 @@ theorem text_roundtrip_exact (s rest : List Char) (h : ∀ c ∈ s, inCharRange 
   apply List.map_congr_left
   intro c hc
   simp [h c hc]
+
+/-! ### Structure: what the decoder sees of a printed document, and how it routes it -/
+
+/-- for every element tree with schema names, the tokenizer's stream for the printed document is
+    parsed (nesting, layout whitespace kept as text) into exactly the content tree `nodeOf`: the
+    decoder starts from the same elements, attributes and (substituted) texts the encoder was given -/
+theorem printed_tree_parses_to_its_content (t : Xml.Tree) (hok : Xml.treeOk t = true) (f g : Nat) :
+    Xml.parseNodes (g + 1 + (Xml.lexedOf 0 t).length)
+        (Xml.nest [] false (Xml.lexBody (f + 1 + (Xml.lexedOf 0 t).length) (Xml.renderLTFrom {} (Xml.toksOf t))) ++ [.stop "#end"])
+      = .ok [Xml.nodeOf 0 t] [] := by
+  have hr := Xml.render_root t []
+  simp only [List.append_nil, Xml.renderLTFrom] at hr
+  have hl := Xml.lex_tree 0 t hok [] (f + 1)
+  simp only [List.append_nil] at hl
+  have hb : Xml.lexBody (f + 1) [] = [] := by simp [Xml.lexBody]
+  rw [hr, hl, hb, List.append_nil, Xml.nest_root]
+  have hp := Xml.parses_tree 0 t (g + 1) [.stop "#end"] [] [] (Xml.parseNodes_stop g "#end" [])
+  simpa using hp
+
+/-- **fields are decoded independently**: in a struct element every field with distinct name
+    receives exactly the child elements carrying its name, in document order, starting from the
+    field's current value — interleaved whitespace, unknown elements and the other fields'
+    children do not matter, and attribute fields are not touched by child elements -/
+theorem fields_decoded_independently (g : Gen.LtType → V → List (String × List Char) → List Xml.Node → Outcome V)
+    (dfs : List Gen.LtField) (hd : DistinctNames dfs) (kids : List Xml.Node) (fs : List V)
+    (hlen : fs.length = dfs.length)
+    (hall : ∀ (i : Nat) (f : Gen.LtField), dfs[i]? = some f → f.attr = false →
+      ∃ v, foldField g f.typ (fs.getD i .nil) (fieldKids f.xmlName kids) = .ok v) :
+    ∃ fs', kids.foldlM (kidStep g dfs) fs = .ok fs' ∧ fs'.length = dfs.length ∧
+      (∀ (i : Nat) (f : Gen.LtField), dfs[i]? = some f → f.attr = false →
+        foldField g f.typ (fs.getD i .nil) (fieldKids f.xmlName kids) = .ok (fs'.getD i .nil)) ∧
+      (∀ (i : Nat) (f : Gen.LtField), dfs[i]? = some f → f.attr = true → fs'.getD i .nil = fs.getD i .nil) :=
+  foldKids_ok g dfs hd kids fs hlen hall
+
+/-- every struct of the LapTimer schema has distinct element names, so the theorem above applies
+    to each of them -/
+theorem schema_element_names_distinct :
+    ∀ p ∈ SpecSchema.structs, ∀ (i j : Nat) (f f' : Gen.LtField),
+      (dataFields p.2)[i]? = some f → (dataFields p.2)[j]? = some f' → f.attr = false → f'.attr = false →
+      f.xmlName = f'.xmlName → i = j := by
+  have hb : ∀ p ∈ SpecSchema.structs, distinctNamesB (dataFields p.2) = true := by decide +kernel
+  intro p hp
+  exact distinctNames_of_B _ (hb p hp)
 
 /-! ### windows-1252 -/
 
